@@ -172,6 +172,26 @@ func ruleOpenOrder(c *Ctx) {
 		} else if cal := cc.StaticCallee(); cal != nil && c.P.inModule(cal) && cal != check {
 			if s := fsSitesIn(c.P, cal); len(s) > 0 {
 				desc = "call " + fnName(cal) + " (reaches " + s[0].eff.desc + ")"
+				// a helper that only creates the directory it is given, called with Options.Dir itself
+				onlyMkdirOfParam := true
+				var pidx = -1
+				for _, site := range s {
+					if site.eff.kind != "mkdir" || site.fn != cal || len(site.in.Common().Args) == 0 {
+						onlyMkdirOfParam = false
+						break
+					}
+					p, isParam := resolve1(site.in.Common().Args[0]).(*ssa.Parameter)
+					if !isParam {
+						onlyMkdirOfParam = false
+						break
+					}
+					pidx = paramIndex(cal, p)
+				}
+				if onlyMkdirOfParam && pidx >= 0 && pidx < len(cc.Args) && isFieldLoad(cc.Args[pidx], "Options", "Dir") {
+					n++
+					c.ok("Open", "creation of Options.Dir may precede the check", c.P.ipos(ci), "through "+fnName(cal))
+					return
+				}
 			}
 		}
 		if desc == "" {
